@@ -733,11 +733,18 @@ def r11_sections_not_aliased(ctx, rule):
     no_aliased_containers(ctx, rule, ['lib_guesser/', 'lib_scorer/'], 100, "the loaders fill every section of the grammar by appending to the list they are handed; one list bound to two sections makes each of them hold the records of both files, in neither file's order and priced with the other file's probabilities")
 
 
+def _options_forwarded(ctx, rule):
+    # the attached probabilities are the products "the loaded ruleset and flags define" only if the flags reach the loader
+    # (seed C01-j: the PRINCE base-structure folder was dropped on the way from PcfgGrammar.__init__ to load_grammar)
+    from . import c14
+    return c14.r13_options_forwarded(ctx, rule)
+
+
 def rules(tier):
     return [('C01.R1', r1_heap_order), ('C01.R2', r2_heap_ownership), ('C01.R3', r3_prob_fold),
             ('C01.R4', r4_prob_pt_coupling), ('C01.R5', r5_successor), ('C01.R6', r6_loader_order),
             ('C01.R7', r7_determinism), ('C01.R8', r8_uniform_scale),
-            ('C01.R9', r9_exact_float_discipline), ('C01.R10', _mask_insertion), ('C01.R11', r11_sections_not_aliased)]
+            ('C01.R9', r9_exact_float_discipline), ('C01.R10', _mask_insertion), ('C01.R11', r11_sections_not_aliased), ('C01.R12', _options_forwarded)]
 
 
 META = {
